@@ -135,9 +135,11 @@ fn normalize_basic_value_for_boundaries(
             quote! {
                 let from0to1 = #arbitrary_in_01_range;
 
-                // Scale range [0; 1] to the range of the boundaries
-                let range = (#upper_value - #lower_value).abs();
-                let x = #lower_value + from0to1 * range;
+                // Scale range [0; 1] to the range of the boundaries.
+                // The halves are scaled separately, because `upper - lower` itself may overflow to
+                // infinity (e.g. for the boundaries `MIN..=MAX`), which would turn `0.0 * range` into NaN.
+                let half_range = ((#upper_value) / 2.0 - (#lower_value) / 2.0).abs();
+                let x = ((#lower_value) + from0to1 * half_range) + from0to1 * half_range;
                 // Rounding may push the scaled value slightly above the upper boundary.
                 let x = if x > #upper_value { #upper_value } else { x };
 
